@@ -57,7 +57,7 @@ BOUND = (
     'generated engine trees with <= 3 packages and <= 4 algorithms: every non-empty subset of {task, analysis, '
     'regress} x with/without events in one package x 3 package styles, events-only packages, five multi-package '
     'dependency shapes (chain, diamond with feedback, shared input, same-kind pair, 2x2 values); every single fault of '
-    '39 kinds at every applicable position of the base engines (quick: one base engine, 231 packages; thorough: all '
+    '39 kinds at every applicable position of the base engines (quick: three base engines - one of several packages, two one-package engines offering all three kinds -, 425 packages; thorough: all '
     'multi-package, the events-only and nine single-package base engines in all styles, ~2800 packages); CLI exit '
     'status for a sample (5 quick / ~45 thorough)'
 )
@@ -252,7 +252,10 @@ def packages(tier, seed):
     shaped = shaped_engines()
     out = list(lawful)
     if tier == 'quick':
-        bases = [shaped[0]]
+        # + two one-package engines offering all three kinds: there no other algorithm refers to the faulted one, so a
+        # fault is judged by the rule it breaks alone (in the shaped engine a consumer of the faulted algorithm may trip first)
+        singles = single_package_engines()
+        bases = [shaped[0], singles[36], singles[41]]
     else:
         singles = single_package_engines()
         rng = random.Random(f'c16:{seed}')
